@@ -246,13 +246,16 @@ pub trait Layout {
         if self.shape().iter().any(|d| d == 0) {
             return 0;
         }
+        // Saturate on overflow, so that a layout whose maximum offset does not
+        // fit in `usize` can never appear to fit in an actual buffer.
         let max_offset: usize = self
             .shape()
             .iter()
             .zip(self.strides().iter())
-            .map(|(size, stride)| (size - 1) * stride)
-            .sum();
-        max_offset + 1
+            .fold(0usize, |max_offset, (size, stride)| {
+                max_offset.saturating_add((size - 1).saturating_mul(stride))
+            });
+        max_offset.saturating_add(1)
     }
 
     /// Return a new layout formed by reshaping this one to `shape`.
@@ -346,7 +349,10 @@ impl<const N: usize> Layout for NdLayout<N> {
     }
 
     fn len(&self) -> usize {
-        self.shape.iter().product()
+        // Saturate rather than wrap if the element count overflows.
+        self.shape
+            .iter()
+            .fold(1usize, |len, size| len.saturating_mul(size))
     }
 
     #[inline]
@@ -623,7 +629,10 @@ impl Layout for DynLayout {
 
     /// Return the number of elements in the tensor shape described by this layout.
     fn len(&self) -> usize {
-        self.shape().iter().product()
+        // Saturate rather than wrap if the element count overflows.
+        self.shape()
+            .iter()
+            .fold(1usize, |len, size| len.saturating_mul(*size))
     }
 
     #[inline]
